@@ -14,12 +14,12 @@ FW_RULE = ("cases = random validated machine sets x call histories drawn from on
            "A case is non-trivial when %s; distinct = distinct wire encodings.")
 
 SIM_RULE = ("cases = fixed regression cases (the witnesses of findings F7-F10, F14) followed by generated simulations drawn from one SplitMix64 state (VERIF_SEED): "
-            "traces of 1-40 packets (both directions, bursts with equal timestamps, gaps 0 ns .. 1 s), network delay 0 .. 50 ms, queue built by parse_trace or by direct pushes, "
+            "traces of 1-40 packets (both directions, bursts with equal timestamps, gaps 0 ns .. 1 s; one in ten starting beyond 2^53 ns, one in eight written unsorted), network delay 0 .. 50 ms, queue built by parse_trace or by direct pushes, "
             "optional pps limit, 0-4 machines per side (random validated machines; in half of the cases role machines -- blockers, padders, timers, cancellers with constant "
             "timings from small sets and all bypass/replace combinations -- so that timers of several machines collide and overlap), all framework fractions, "
             "stop conditions and output filters. Each case runs the real sim_advanced with the verif recorder armed (every RNG-derived draw of both frameworks, in call order) "
             "and the extracted Coq model of the simulator with that tape: the returned traces (time, side, event, machine, padding/bypass/replace flags) and the trace-derived "
-            "pps limit must be equal line by line. %s Non-trivial = the trace contains padding, blocking or timer events; distinct = distinct wire encodings.")
+            "pps limit must be equal line by line. %s For C15-C19 an implementation-only probe (c19long, under probes) evaluates the same monitor on runs of 66 000 to 120 000 iterations. Non-trivial = the trace contains padding, blocking or timer events; distinct = distinct wire encodings.")
 
 # /repo commit the development was last validated against (see vcheck.repo_drift)
 PINNED_REPO_HEAD = "623cd5cf78b8f9b91772e7577baf06e9615e4078"
@@ -36,6 +36,7 @@ PROPS = {
         "assumptions": ["no integration delays (the properties exclude them)", "times within the range of std::time::Instant"],
     },
     "C15": {
+        "extra": [{"sub": "c19long", "dir": "C15-long", "args": ["--prop", "C15"], "n": {"quick": 4, "thorough": 40}}],
         "sub": "sim",
         "search_n": {"quick": 30000, "thorough": 300000},
         "shards": {"quick": 1, "thorough": 12},
@@ -46,6 +47,7 @@ PROPS = {
         "assumptions": ["no integration delays (the properties exclude them)", "times within the range of std::time::Instant"],
     },
     "C16": {
+        "extra": [{"sub": "c19long", "dir": "C16-long", "args": ["--prop", "C16"], "n": {"quick": 4, "thorough": 40}}],
         "sub": "sim",
         "search_n": {"quick": 30000, "thorough": 300000},
         "shards": {"quick": 1, "thorough": 12},
@@ -56,6 +58,7 @@ PROPS = {
         "assumptions": ["no integration delays (the properties exclude them)", "times within the range of std::time::Instant"],
     },
     "C17": {
+        "extra": [{"sub": "c19long", "dir": "C17-long", "args": ["--prop", "C17"], "n": {"quick": 4, "thorough": 40}}],
         "sub": "sim",
         "search_n": {"quick": 30000, "thorough": 300000},
         "shards": {"quick": 1, "thorough": 12},
@@ -66,6 +69,7 @@ PROPS = {
         "assumptions": ["no integration delays (the properties exclude them)", "times within the range of std::time::Instant"],
     },
     "C18": {
+        "extra": [{"sub": "c19long", "dir": "C18-long", "args": ["--prop", "C18"], "n": {"quick": 4, "thorough": 40}}],
         "sub": "sim",
         "search_n": {"quick": 30000, "thorough": 300000},
         "shards": {"quick": 1, "thorough": 12},
